@@ -18,7 +18,7 @@ from . import core, gfi, gfi_run
 from .gfi import COEF, sel_mem
 
 HDR = ("From Coq Require Import List Bool ZArith NArith.\nFrom Gen Require Import SelGen.\n"
-       "From Model Require Import Key Sel GFI GFIRun.")
+       "From Model Require Import Key Sel GFI GFIEdit GFIRun.")
 CACHE = core.VERIF / ".cache"
 
 
@@ -97,8 +97,7 @@ def engine(ctx):
     kept_idx = [i for i, o in enumerate(outs) if "skip" not in o]
     terms, shipped = [], {}
     for i in kept_idx:
-        steps = [s for s in outs[i]["steps"] if s["res"][0] in ("ok", "err")]
-        shipped[i] = [outs[i]["steps"].index(s) for s in steps]
+        shipped[i] = [j for (j, _, _, _) in gfi_run.shipped_steps(outs[i])]
         terms.append(gfi_run.c_case(cases[i], outs[i]))
     pairs, errors = coq_pairs("bgfi", terms)
     mism = {}
